@@ -206,6 +206,12 @@ class Translator:
             vals = [self.expr(x, env) for x in e.elts]
             return (tuple(v[0] for v in vals), tuple(v[1] for v in vals))
         if isinstance(e, ast.UnaryOp):
+            if isinstance(e.op, ast.Not) and isinstance(e.operand, ast.Compare) and len(e.operand.ops) == 1 \
+                    and type(e.operand.ops[0]) in (ast.Lt, ast.LtE, ast.Gt, ast.GtE):
+                # `not a < b` is translated as `a >= b`: the model's numbers are totally ordered (it has no NaN; that a NaN
+                # is refused by such a guard is checked on the running code by the search, not in Lean)
+                comp = {ast.Lt: ast.GtE, ast.LtE: ast.Gt, ast.Gt: ast.LtE, ast.GtE: ast.Lt}[type(e.operand.ops[0])]()
+                return self.compare(comp, self.expr(e.operand.left, env), self.expr(e.operand.comparators[0], env))
             if isinstance(e.op, ast.Not):
                 v = self.expr(e.operand, env)
                 if v[1] != "B":
